@@ -1,27 +1,33 @@
-/* R-TEL, implementation side: the real telnet filter of src/powerman/device_tcp.c (included, so the statics
- * _telnet_init / _telnet_preprocess and TcpDev are visible) working on a Device whose from/to buffers are real
- * cbufs (src/liblsd/cbuf.c, included with read()/write() redirected to a scripted descriptor).
+/* R-TEL, implementation side: the real telnet filter of src/powerman/device_tcp.c and the real device.c functions
+ * around it (both #included, so the statics _telnet_init / _telnet_preprocess / tcp_finish_connect_one /
+ * _handle_ready_device / _handle_read / _handle_write / _disconnect / _getregex_buf are visible), working on a Device
+ * whose from/to buffers are real cbufs (src/liblsd/cbuf.c, included with read()/write() redirected to a scripted
+ * descriptor).  Linked with the tree's list.c, xregex.c, arglist.c, pluglist.c, hostlist.c, hash.c; everything of
+ * device.c that these entry points do not reach is dropped by --gc-sections.
  *
  * case line:   <id> <minsize> <maxsize> | op | op | ...
- *   c <hex>      the device sends these bytes: what device.c does on POLLIN, repeated while the descriptor has
- *                data:  n = cbuf_write_from_fd (dev->from, fd, -1, &dropped); if (n > 0) preprocess (dev, n)
- *                                                                -> c nreads dropped_total err
+ *   c <hex>      the device sends these bytes: POLLIN is reported while the descriptor has data, i.e.
+ *                _handle_ready_device (dev, XPOLLIN)  =  _handle_read (cbuf_write_from_fd (dev->from, fd, -1, &dropped))
+ *                followed by dev->preprocess (dev, nread)                         -> c nreads dropped_total err
  *   d <n>        an expect consumes n bytes: cbuf_peek + cbuf_drop (dev->from, n)       -> d ret hex
- *   s <script>   _handle_write: cbuf_read_to_fd (dev->to, fd, -1) with accept script   -> s err hex
- *   R            reconnect: cbuf_flush (from), cbuf_flush (to) as _disconnect does, then _telnet_init -> R
- * after every op:  " ; <from content> <to content> <tstate> <tcmd> <err() calls> ; <from indices> ; <to indices>"
+ *   e <n>        an expect with the pattern ^.{n} through the real _getregex_buf (dev->from, re, xm):
+ *                                                    -> e 1 <hex of the subject it matched against> | e 0 -
+ *   s <script>   POLLOUT: _handle_ready_device (dev, XPOLLOUT) = _handle_write = cbuf_read_to_fd (dev->to, fd, -1)
+ *                with this accept script                                               -> s err hex
+ *   R            reconnect: the real _disconnect (dev) (-> tcp_disconnect, flush of both buffers), then the connect
+ *                completes: tcp_finish_connect_one (dev) (-> _telnet_init)             -> R
+ * after every op:  " ; <from content> <to content> <tstate> <tcmd> <err() calls of the filter> ; <from indices> ; <to indices>"
  *
- * sweep mode (argv: sweep Lfull Luni part nparts): small-scope exhaustive enumeration, see props/C09.py.
- *
- * The preprocess method has one argument before fixes/F13-telnet-refilter.diff and two after it; the harness
- * calls whichever the tree under test declares. */
+ * sweep mode (argv: sweep Lfull Luni part nparts): small-scope exhaustive enumeration, see props/C09.py. */
 #include <stdio.h>
 #include <stdlib.h>
 #include <string.h>
 #include <errno.h>
 #include <unistd.h>
 #include <stdbool.h>
+#include <stdarg.h>
 #include <sys/types.h>
+#include <sys/socket.h>
 #include <sys/wait.h>
 
 static ssize_t fake_read(int fd, void *buf, size_t n);
@@ -34,14 +40,34 @@ static ssize_t fake_write(int fd, const void *buf, size_t n);
 #undef MIN
 #undef MAX
 
+/* the connect "completes without error"; the descriptor is ours, nothing to close */
+static int fake_getsockopt(int fd, int level, int opt, void *val, socklen_t *len) { (void)fd; (void)level; (void)opt; (void)len; *(int *)val = 0; return 0; }
+static int fake_close(int fd) { (void)fd; return 0; }
+#define getsockopt fake_getsockopt
+#define close fake_close
 #include "device_tcp.c"
+#undef getsockopt
+#undef close
+#undef MIN
+#undef MAX
+
+#include "device.c"
 #include "cbuf_fakefd.h"
 
-/* ---- what device_tcp.c needs from the rest of the daemon ---- */
-static int err_calls;
+/* ---- what the included files need from the rest of the daemon ---- */
+static int err_calls;            /* diagnostics of the telnet filter (short cbuf_write / cbuf_drop) */
+static long lost_reported;       /* "<dev> lost <n> chars due to buffer wrap" of _handle_read */
 void lsd_fatal_error(char *f, int l, char *m) { fprintf(stderr, "lsd_fatal_error %s:%d %s\n", f, l, m); abort(); }
 void *lsd_nomem_error(char *f, int l, char *m) { fprintf(stderr, "lsd_nomem_error %s:%d %s\n", f, l, m); abort(); return NULL; }
-void err(bool e, const char *fmt, ...) { (void)e; (void)fmt; err_calls++; }
+void err(bool e, const char *fmt, ...)
+{
+    (void)e;
+    if (!strncmp(fmt, "_telnet", 7))
+        err_calls++;
+    else if (strstr(fmt, "lost %d chars")) {
+        va_list ap; va_start(ap, fmt); (void)va_arg(ap, char *); lost_reported += va_arg(ap, int); va_end(ap);
+    }
+}
 void err_exit(bool e, const char *fmt, ...) { (void)e; fprintf(stderr, "err_exit: %s\n", fmt); exit(3); }
 void dbg_wrapped(unsigned long ch, const char *fmt, ...) { (void)ch; (void)fmt; }
 char *xmalloc(int size) { char *p = calloc(1, size > 0 ? size : 1); if (!p) abort(); return p; }
@@ -49,37 +75,37 @@ void xfree(void *p) { free(p); }
 char *xstrdup(const char *s) { char *p = strdup(s); if (!p) abort(); return p; }
 void nonblock_set(int fd) { (void)fd; }
 
-/* one-argument (before the F13 fix) or two-argument (after) preprocess method */
-#define CALL_PREPROCESS(dev, n) \
-    __builtin_choose_expr(__builtin_types_compatible_p(__typeof__(tcp_preprocess), void(Device *)), \
-        ((void (*)(Device *))tcp_preprocess)(dev), \
-        ((void (*)(Device *, int))tcp_preprocess)((dev), (n)))
-_Static_assert(__builtin_types_compatible_p(__typeof__(tcp_preprocess), void(Device *))
-               || __builtin_types_compatible_p(__typeof__(tcp_preprocess), void(Device *, int)),
-               "tcp_preprocess has neither of the two known signatures");
-
 static Device dev;
 static TcpDev tcpdev;
+
+/* the connect completes: what _handle_ready_device does on XPOLLOUT while DEV_CONNECTING, minus _enqueue_login */
+static void finish_connect(void)
+{
+    dev.fd = FAKE_FD;
+    dev.connect_state = DEV_CONNECTING;
+    if (!tcp_finish_connect_one(&dev)) { fprintf(stderr, "tcp_finish_connect_one failed\n"); exit(3); }
+}
 
 static int mk_device(int mn, int mx)
 {
     memset(&dev, 0, sizeof dev);
     memset(&tcpdev, 0, sizeof tcpdev);
     dev.name = "t";
-    dev.fd = FAKE_FD;
-    dev.connect_state = DEV_CONNECTED;
     dev.from = cbuf_create(mn, mx);
     dev.to = cbuf_create(mn, mx);
     if (!dev.from || !dev.to) return 0;
     tcpdev.tstate = TELNET_NONE; tcpdev.tcmd = 0; tcpdev.quiet = true;     /* as tcp_create */
     dev.data = &tcpdev;
     dev.preprocess = tcp_preprocess;
-    _telnet_init(&dev);
+    dev.disconnect = tcp_disconnect;
+    dev.finish_connect = tcp_finish_connect;
+    dev.acts = list_create(NULL);
+    finish_connect();
     err_calls = 0;
     return 1;
 }
 
-static void rm_device(void) { cbuf_destroy(dev.from); cbuf_destroy(dev.to); }
+static void rm_device(void) { cbuf_destroy(dev.from); cbuf_destroy(dev.to); list_destroy(dev.acts); }
 
 static unsigned char *content(cbuf_t cb, int *n)
 {
@@ -103,21 +129,36 @@ static void state(void)
     putchar('\n');
 }
 
-/* the device sends n bytes; returns number of reads, accumulates dropped; *errp = 1 if a read reported error/EOF */
+/* the device sends n bytes; returns number of POLLIN rounds, accumulates the reported loss; *errp = 1 if a round
+ * ended in the i/o error path (the caller would _disconnect) */
 static int arrive(const unsigned char *b, size_t n, long *dropped_total, int *errp)
 {
     int reads = 0;
     rd_load_bytes(b, n);
     *errp = 0;
     while (rd_pending() > 0) {
-        int dropped = 0;
-        int r = cbuf_write_from_fd(dev.from, dev.fd, -1, &dropped);
+        lost_reported = 0;
+        bool ioerr = _handle_ready_device(&dev, XPOLLIN);
         reads++;
-        *dropped_total += dropped;
-        if (r <= 0) { *errp = 1; break; }
-        CALL_PREPROCESS(&dev, r);
+        *dropped_total += lost_reported;
+        if (ioerr) { *errp = 1; break; }
     }
     return reads;
+}
+
+/* an expect whose pattern matches exactly the first n bytes of a subject of at least n bytes */
+static void expect_n(int n)
+{
+    char pat[64];
+    xregex_t re = xregex_create();
+    xregex_match_t xm = xregex_match_create(1);
+    snprintf(pat, sizeof pat, "^.{%d}", n);
+    xregex_compile(re, pat, true);
+    char *str = _getregex_buf(dev.from, re, xm);
+    if (str) { printf("e 1 "); puthex((unsigned char *)str, (long)strlen(str)); xfree(str); }
+    else printf("e 0 -");
+    xregex_match_destroy(xm);
+    xregex_destroy(re);
 }
 
 static void run_case(char *line)
@@ -147,11 +188,14 @@ static void run_case(char *line)
         } else if (c == 's') {
             char *scr = malloc(strlen(op) + 1); scr[0] = 0; sscanf(op + 1, "%s", scr);
             wr_load(scr);
-            int r = cbuf_read_to_fd(dev.to, dev.fd, -1);
-            printf("s %d ", r <= 0 ? 1 : 0); puthex(wr_buf, wr_len); free(scr);
+            bool ioerr = _handle_ready_device(&dev, XPOLLOUT);
+            printf("s %d ", ioerr ? 1 : 0); puthex(wr_buf, wr_len); free(scr);
+        } else if (c == 'e') {
+            int n; sscanf(op + 1, "%d", &n);
+            expect_n(n);
         } else if (c == 'R') {
-            cbuf_flush(dev.from); cbuf_flush(dev.to);
-            _telnet_init(&dev);
+            _disconnect(&dev);
+            finish_connect();
             printf("R");
         } else {
             printf("? unknown op %c", c);
